@@ -1,9 +1,9 @@
 (* Device model of the servo commands: the C++ the emitter writes for ServoDecl / ServoWrite /
    ServoWriteMicroseconds (emitter.py: globals ~2505-2554, setup ~2659-2672, branches ~1688-1768) and the
    getter expressions read() / read_us() (parser.py ~719-725, ~767-773), statement by statement; the
-   declaration's arguments as the parser resolves them (parser.py ~3060-3127: angles through
-   _resolve_float_arg, i.e. float(value); pulse bounds through _resolve_numeric_arg, i.e. int(value):
-   TRUNCATED to an integer).
+   declaration's arguments as the parser resolves them (parser.py ~3060-3127: angles and pulse bounds
+   through _resolve_float_arg, i.e. float(value); attach() takes whole microseconds: the emitter hands it
+   the nearest integer of a float literal, _emit_nearest_int).
    State = the globals  float __servo_min_angle_x, __servo_max_angle_x, __servo_min_pulse_x,
    __servo_max_pulse_x, __servo_angle_x, __servo_pulse_x.
    C floats are exact rationals (DESIGN.md section 1); an argument reaches the device as
@@ -27,20 +27,27 @@ Inductive sdev : Type :=
 | SWriteDeg (pin z : Z)            (* __servo_x.write(z) *)
 | SWriteMicros (pin z : Z).        (* __servo_x.writeMicroseconds(z) *)
 
+(* the rounding of the generated code:  if (x < 0.0f) { x -= 1.0f; }  ... static_cast<int>(x + 0.5f)
+   (static_cast<int> truncates toward zero; a negative value is shifted down by one first) *)
+Definition cround (x : Q) : Z := ctrunc ((if Qltb x 0 then x - 1 else x) + (1 # 2)).
+
+(* _emit_nearest_int on a float literal, at transpile time:  int(v - 0.5) if v < 0 else int(v + 0.5) *)
+Definition pyround (v : Q) : Z := if Qltb v 0 then ctrunc (v - (1 # 2)) else ctrunc (v + (1 # 2)).
+
 (* ---- the declaration  x = Servo(pin, min_angle=, max_angle=, min_pulse_us=, max_pulse_us=)  with literal
-   arguments.  None = the parser raises ValueError (bounds not strictly ordered AFTER its own conversions).
-   globals:  min/max angle = float(value); min/max pulse = int(value) (truncation); angle = min angle; pulse = min pulse
-   setup:    attach(pin, min pulse, max pulse); writeMicroseconds(min pulse) *)
+   arguments.  None = the parser raises ValueError (bounds not strictly ordered).
+   globals:  min/max angle = float(value); min/max pulse = float(value); angle = min angle; pulse = min pulse
+   setup:    attach(pin, nearest int of min pulse, nearest int of max pulse); writeMicroseconds(nearest int of min pulse) *)
 Definition ds_decl (a : servo_args) : option (dservo * list sdev) :=
   let pin := ctrunc (qval (dflt servo_default_pin (a_pin a))) in
   let mina := qval (dflt servo_default_min_angle (a_min_a a)) in
   let maxa := qval (dflt servo_default_max_angle (a_max_a a)) in
-  let minp := ctrunc (qval (dflt servo_default_min_pulse (a_min_p a))) in
-  let maxp := ctrunc (qval (dflt servo_default_max_pulse (a_max_p a))) in
+  let minp := qval (dflt servo_default_min_pulse (a_min_p a)) in
+  let maxp := qval (dflt servo_default_max_pulse (a_max_p a)) in
   if Qleb maxa mina then None
-  else if (maxp <=? minp)%Z then None
-  else Some (mkDS pin mina maxa (inject_Z minp) (inject_Z maxp) mina (inject_Z minp),
-             [SAttach pin minp maxp; SWriteMicros pin minp]).
+  else if Qleb maxp minp then None
+  else Some (mkDS pin mina maxa minp maxp mina minp,
+             [SAttach pin (pyround minp) (pyround maxp); SWriteMicros pin (pyround minp)]).
 
 (* if (x < lo) x = lo;   if (x > hi) x = hi; *)
 Definition c_lo (lo x : Q) : Q := if Qltb x lo then lo else x.
@@ -52,21 +59,21 @@ Definition ds_set (s : dservo) (a p : Q) : dservo :=
   mkDS (ds_pin s) (ds_min_a s) (ds_max_a s) (ds_min_p s) (ds_max_p s) a p.
 
 (* ServoWrite: angle clamped to the configured bounds and stored; pulse = linear map, clamped, stored;
-   write(static_cast<int>(angle + 0.5f))  -  truncation toward zero of angle + 1/2 *)
+   if (angle < 0.0f) angle -= 1.0f;  write(static_cast<int>(angle + 0.5f))  -  the nearest integer *)
 Definition d_write (s : dservo) (v : Q) : dservo * list sdev :=
   let a := c_hi (ds_max_a s) (c_lo (ds_min_a s) v) in
   let span := span_of (ds_min_a s) (ds_max_a s) in
   let p0 := ds_min_p s + ((a - ds_min_a s) / span) * (ds_max_p s - ds_min_p s) in
   let p := c_hi (ds_max_p s) (c_lo (ds_min_p s) p0) in
-  (ds_set s a p, [SWriteDeg (ds_pin s) (ctrunc (a + (1 # 2)))]).
+  (ds_set s a p, [SWriteDeg (ds_pin s) (cround a)]).
 
 (* ServoWriteMicroseconds: pulse clamped and stored; angle = linear map (not clamped), stored;
-   writeMicroseconds(static_cast<int>(pulse + 0.5f)) *)
+   if (pulse < 0.0f) pulse -= 1.0f;  writeMicroseconds(static_cast<int>(pulse + 0.5f)) *)
 Definition d_write_us (s : dservo) (v : Q) : dservo * list sdev :=
   let p := c_hi (ds_max_p s) (c_lo (ds_min_p s) v) in
   let span := span_of (ds_min_p s) (ds_max_p s) in
   let a := ds_min_a s + ((p - ds_min_p s) / span) * (ds_max_a s - ds_min_a s) in
-  (ds_set s a p, [SWriteMicros (ds_pin s) (ctrunc (p + (1 # 2)))]).
+  (ds_set s a p, [SWriteMicros (ds_pin s) (cround p)]).
 
 (* getters as printed expressions; values normalised so that equal rationals are equal terms *)
 Inductive sget : Type := SGNone | SGFloat (q : Q).
@@ -96,8 +103,8 @@ Fixpoint dsfinal (s : dservo) (ops : list sop) : dservo :=
 
 (* ---- the host's events as commands to the Servo library ----
    a completed write(a) is the angle level a, a completed write_us(p) the pulse level p; the library takes
-   integers: the level is commanded as its nearest integer (halves up) *)
-Definition rnear (q : Q) : Z := Qfloor (q + (1 # 2)).
+   integers: the level is commanded as its nearest integer (halves away from zero) *)
+Definition rnear (q : Q) : Z := if Qltb q 0 then (- Qfloor (- q + (1 # 2)))%Z else Qfloor (q + (1 # 2)).
 
 Definition hsconv (pin : Z) (o : sop) (e : sev) : sdev :=
   match o, e with
@@ -131,29 +138,17 @@ Definition servo_in_range (h : servo) (o : sop) : bool :=
   | _ => true
   end.
 
-(* level guard: the commanded value is at least -1/2 (below, static_cast<int>(x + 0.5f) truncates toward
-   zero and is not the nearest integer) *)
-Definition servo_level_ok (o : sop) : bool :=
-  match o with
-  | SWrite v | SWriteUs v => Qleb (-(1 # 2)) (qval v)
-  | _ => true
-  end.
-
 Fixpoint servo_range_flags (h : servo) (ops : list sop) : list bool :=
   match ops with
   | [] => []
   | o :: r => servo_in_range h o :: servo_range_flags (sstate (sstep h o)) r
   end.
 
-Definition servo_level_flags (ops : list sop) : list bool := map servo_level_ok ops.
-
-(* declaration guard: the pulse bounds are whole numbers (the parser truncates them, the host keeps the fraction) *)
-Definition whole (q : Q) : bool := Qeqb (inject_Z (ctrunc q)) q.
+(* declaration guard: every argument is a number (the literals of the modelled declarations) *)
 Definition decl_ok (a : servo_args) : bool :=
   snum_ok (dflt servo_default_pin (a_pin a)) &&
   snum_ok (dflt servo_default_min_angle (a_min_a a)) && snum_ok (dflt servo_default_max_angle (a_max_a a)) &&
-  snum_ok (dflt servo_default_min_pulse (a_min_p a)) && snum_ok (dflt servo_default_max_pulse (a_max_p a)) &&
-  whole (qval (dflt servo_default_min_pulse (a_min_p a))) && whole (qval (dflt servo_default_max_pulse (a_max_p a))).
+  snum_ok (dflt servo_default_min_pulse (a_min_p a)) && snum_ok (dflt servo_default_max_pulse (a_max_p a)).
 
 (* device = host on the state *)
 Definition srel (h : servo) (d : dservo) : Prop :=
@@ -168,12 +163,12 @@ Definition dsinv (d : dservo) : Prop :=
   ds_min_a d <= ds_angle d <= ds_max_a d /\ ds_min_p d <= ds_pulse d <= ds_max_p d.
 
 (* what the clamp clause says of one event: the integer handed to the library is the rounding
-   static_cast<int>(x + 0.5f) of a value x within the configured bounds *)
+   (nearest integer, halves away from zero) of a value x within the configured bounds *)
 Definition sdev_ok (d : dservo) (e : sdev) : Prop :=
   match e with
   | SAttach _ _ _ => True
-  | SWriteDeg _ z => exists a, ds_min_a d <= a <= ds_max_a d /\ z = ctrunc (a + (1 # 2))
-  | SWriteMicros _ z => exists p, ds_min_p d <= p <= ds_max_p d /\ z = ctrunc (p + (1 # 2))
+  | SWriteDeg _ z => exists a, ds_min_a d <= a <= ds_max_a d /\ z = cround a
+  | SWriteMicros _ z => exists p, ds_min_p d <= p <= ds_max_p d /\ z = cround p
   end.
 
 Definition same_bounds (d d' : dservo) : Prop :=
